@@ -159,4 +159,97 @@ theorem scanRefs_idle_plain (s : LocSection) (c : Char) (hc : c ≠ '{') (rest :
   have : (c == '{') = false := by simpa using hc
   simp [scanRefs, refStep, refIdle, this, expandChunk]
 
+/-! ### the `ignore_parents` cut -/
+
+/-- the cut on any list: what is consulted is a prefix; every consulted section
+but the last is not ignoring; and something is cut off only behind an ignoring
+section -/
+theorem cut_spec : ∀ (l : List LocSection), ∃ rest, l = cutAfterIgnoring l ++ rest ∧
+    (∀ a s b, cutAfterIgnoring l = a ++ s :: b → (∀ x ∈ a, ignoring x = false) ∧ (b ≠ [] → ignoring s = false)) ∧
+    (rest ≠ [] → ∃ s, (cutAfterIgnoring l).getLast? = some s ∧ ignoring s = true)
+  | [] => ⟨[], rfl, by intro a s b h; simp [cutAfterIgnoring] at h, by intro h; exact absurd rfl h⟩
+  | x :: r => by
+    obtain ⟨rest, hr, hmid, hlast⟩ := cut_spec r
+    by_cases hx : ignoring x = true
+    · refine ⟨r, by simp [cutAfterIgnoring, hx], ?_, ?_⟩
+      · intro a s b h
+        simp only [cutAfterIgnoring, hx, if_true] at h
+        cases a with
+        | nil =>
+          simp only [List.nil_append, List.cons.injEq] at h
+          exact ⟨by simp, fun hb => absurd h.2.symm hb⟩
+        | cons a0 a' =>
+          simp only [List.cons_append, List.cons.injEq] at h
+          have := h.2; simp at this
+      · intro _; exact ⟨x, by simp [cutAfterIgnoring, hx], hx⟩
+    · have hx' : ignoring x = false := by simpa using hx
+      refine ⟨rest, ?_, ?_, ?_⟩
+      · simp only [cutAfterIgnoring, hx', Bool.false_eq_true, if_false, List.cons_append]; rw [← hr]
+      · intro a s b h
+        simp only [cutAfterIgnoring, hx', Bool.false_eq_true, if_false] at h
+        cases a with
+        | nil =>
+          simp only [List.nil_append, List.cons.injEq] at h
+          refine ⟨by simp, fun _ => ?_⟩
+          rw [← h.1]; exact hx'
+        | cons a0 a' =>
+          simp only [List.cons_append, List.cons.injEq] at h
+          obtain ⟨h1, h2⟩ := hmid a' s b h.2
+          refine ⟨?_, h2⟩
+          intro y hy
+          rcases List.mem_cons.mp hy with e | e
+          · rw [e, ← h.1]; exact hx'
+          · exact h1 y e
+      · intro hne
+        obtain ⟨s, hs, hi⟩ := hlast hne
+        refine ⟨s, ?_, hi⟩
+        simp only [cutAfterIgnoring, hx', Bool.false_eq_true, if_false]
+        cases hc : cutAfterIgnoring r with
+        | nil => rw [hc] at hs; simp at hs
+        | cons c cs => rw [hc] at hs; simpa [List.getLast?_cons_cons] using hs
+
+theorem cut_split : ∀ (l a : List LocSection) (s : LocSection) (b : List LocSection),
+    cutAfterIgnoring l = a ++ s :: b → (∀ x ∈ a, ignoring x = false) ∧ ∃ rest, l = a ++ s :: rest := by
+  intro l a s b h
+  obtain ⟨rest, hl, hmid, _⟩ := cut_spec l
+  refine ⟨(hmid a s b h).1, b ++ rest, ?_⟩
+  rw [hl, h]; simp
+
+/-! ### counting keys (fuel of `secGet`) -/
+
+/-- number of options whose key has at least `n` characters -/
+def cntGe (n : Nat) (opts : List (Str × Str)) : Nat := opts.countP fun kv => decide (n ≤ kv.1.length)
+
+theorem cntGe_le_length (n : Nat) (opts : List (Str × Str)) : cntGe n opts ≤ opts.length := List.countP_le_length
+
+theorem cntGe_mono (n k : Nat) (opts : List (Str × Str)) : cntGe (n + k) opts ≤ cntGe n opts := by
+  unfold cntGe
+  apply List.countP_mono_left
+  intro x _ hx
+  simp only [decide_eq_true_eq] at hx ⊢
+  omega
+
+/-- a defined key is counted among the keys of its length but not among the longer ones -/
+theorem lookup_cnt {k v : Str} : ∀ {opts : List (Str × Str)}, lookup k opts = some v →
+    cntGe (k.length + 7) opts + 1 ≤ cntGe k.length opts
+  | [], h => by simp [lookup] at h
+  | (a, w) :: r, h => by
+    unfold lookup at h
+    by_cases ha : a = k
+    · subst ha
+      have := cntGe_mono a.length 7 r
+      simp only [cntGe, List.countP_cons] at this ⊢
+      simp only [Nat.le_refl, decide_true, if_true]
+      have : ¬ (a.length + 7 ≤ a.length) := by omega
+      simp only [this, decide_false, Bool.false_eq_true, if_false]
+      omega
+    · simp only [ha, if_false] at h
+      have ih := lookup_cnt h
+      simp only [cntGe, List.countP_cons] at ih ⊢
+      by_cases h7 : k.length + 7 ≤ a.length
+      · have h0 : k.length ≤ a.length := by omega
+        simp only [h7, h0, decide_true, if_true]; omega
+      · simp only [h7, decide_false, Bool.false_eq_true, if_false]
+        split <;> omega
+
 end BreezyVerif.C49
